@@ -109,15 +109,18 @@ def history_model(c: dict[str, Any], evs: list[OTelEvent]) -> Optional[str]:
     def factory() -> Any:
         store.drop_temporaries()
         return V.model_holder(store, c["batch"], c["buf"])
+    ingested = False
     for k, flags in enumerate(c["history"]):
+        ingested = ingested or bool(flags[0])
         got = one_run(factory, evs, flags)
         if got == "NOT-CONSUMED":
             continue
         if isinstance(got, str):
             return f"run {k + 1} {flags}: {got}"
         fresh = M.Store()
-        # the oracle (a first run on a fresh store) works on values that are concrete on this path: run it untraced
-        want = untraced(lambda: one_run(lambda: V.model_holder(fresh, c["batch"], c["buf"]), evs, [1, flags[1]]))
+        # the oracle: a single run on a fresh store that ingests the files iff some run so far has ingested them
+        # (it works on values that are concrete on this path: run it untraced)
+        want = untraced(lambda: one_run(lambda: V.model_holder(fresh, c["batch"], c["buf"]), evs, [int(ingested), flags[1]]))
         if got != want:
             return f"run {k + 1} {flags} produced {got}; a first run with these flags produces {want}"
     return None
@@ -134,7 +137,9 @@ def history_real(c: dict[str, Any], evs: list[OTelEvent]) -> Optional[str]:
             return h
         return factory
     try:
+        ingested = False
         for k, flags in enumerate(c["history"]):
+            ingested = ingested or bool(flags[0])
             got = one_run(mk(f"sqlite:///{tmp}/db.sqlite"), evs, flags)
             for h in made:
                 h.session.close()
@@ -144,7 +149,7 @@ def history_real(c: dict[str, Any], evs: list[OTelEvent]) -> Optional[str]:
                 continue
             if isinstance(got, str):
                 return f"run {k + 1} {flags}: {got}"
-            want = one_run(mk(f"sqlite:///{tmp}/fresh{k}.sqlite"), evs, [1, flags[1]])
+            want = one_run(mk(f"sqlite:///{tmp}/fresh{k}.sqlite"), evs, [int(ingested), flags[1]])
             for h in made:
                 h.session.close()
                 h.engine.dispose()
